@@ -263,6 +263,13 @@ def main():
             items.append(("expec", v, v, True, 1, hi, lo, 1, 1, True, model_for(lo, hi)))
             items.append(("tm_left", v, v, True, 1, hi, "", nc, na, True, model_for(hi)))
             items.append(("expec", v, v, True, 2, lo, lo, 1, 1, True, model_for(lo)))
+    # third order of a diagonal block with subtract_gs: the scalar terms e0^(b) <I^(a)|J^(c)> with
+    # b >= 1 first matter here (e0^(1) != 0 needs first-order singles or a two-particle operator)
+    for v in (("ip", "ea") if quick else variants):
+        lo, hi = SP2[v]
+        items.append(("expec", v, v, True, 3, lo, lo, 1, 1, True, model_for(lo)))
+        if not quick:
+            items.append(("expec", v, v, True, 3, lo, lo, 1, 1, False, model_for(lo)))
     # summing functions: (kind, left, right, singles, order, -, adc_order, n_c, n_a, subtract_gs, model)
     for v in variants:
         nc, na = DEF[v]
